@@ -492,7 +492,12 @@ impl State {
                 obs.disallow_future_use(self);
             }
         }
-        self.unlink_disallowed_observers();
+        if self.status.get() == IncrStatus::NotStabilising {
+            self.unlink_disallowed_observers();
+        }
+        // else: a panic escaped from stabilise and the graph may be half-updated (e.g. a node
+        // whose children were only partly linked); unlinking would walk it and panic again.
+        // The observers are simply released below.
         self.all_observers.take().clear();
         self.disallowed_observers.take().clear();
         self.weak_maps.take().clear();
